@@ -5,7 +5,8 @@
    contains; C09_terminates and C10_uniform_fuel say such a fuel exists). *)
 From Coq Require Import List NArith ZArith Bool QArith Qcanon.
 From Okv Require Import Base.Maps Base.Dec Model.Amount Model.Book Model.Query Model.PriceDb Model.Convert
-     Model.ConvertSpec Proofs.PriceProofs Proofs.PriceTable Proofs.ConvertProofs.
+     Model.ConvertSpec Proofs.PriceProofs Proofs.PriceTable Proofs.ConvertProofs
+     Model.Syntax Model.Lower Proofs.EventDates.
 Import ListNotations.
 Open Scope Qc_scope.
 
@@ -124,3 +125,25 @@ Theorem C10_uniform_fuel : forall choose recs target (dates : list Z),
   exists fuel, forall d, In d dates -> exists t, price_table fuel choose recs target d = PTDone t.
 Proof. exact uniform_fuel. Qed.
 Print Assumptions C10_uniform_fuel.
+
+(* "each posting at its own transaction date": a transaction written `DATE=EFFECTIVE` is booked,
+   and states its rates, at DATE.  Every price event a booked transaction adds (the rates of
+   `@`, `@@`, `{}`, `{{}}` and the rate implied by a two-commodity transaction) carries the
+   transaction's date, and the transaction is stored under that date - the date the historical
+   conversion converts its postings at (C10_historical_report) *)
+Theorem C10_rates_dated_at_transaction_date : forall s t s',
+  add_transaction s t = Ok s' ->
+  (exists evs, s_events s' = s_events s ++ evs /\ Forall (fun e => e_date e = t_date t) evs) /\
+  (exists ps, s_txns s' = s_txns s ++ [{| o_date := t_date t; o_posts := ps |}]).
+Proof. exact add_transaction_dates. Qed.
+Print Assumptions C10_rates_dated_at_transaction_date.
+
+(* the effective date never reaches the book-keeping: rewriting the effective date of every
+   transaction of a parsed file by any rule `f` (adding, removing, moving them) gives the same
+   booked entries, hence the same state, price repository and reports (everything after
+   `low_entries` in Model/Lower.v `pipeline` and Model/Pipeline.v `run_files`; `redate` is
+   defined in Proofs/EventDates.v) *)
+Theorem C10_effective_date_not_booked : forall f es ta tc,
+  low_entries ta tc (map (redate f) es) = low_entries ta tc es.
+Proof. exact low_entries_redate. Qed.
+Print Assumptions C10_effective_date_not_booked.
